@@ -222,11 +222,12 @@ pub fn run_case(c: &C13Case, n: u64) -> Verdict {
         }
     }
     // a small descriptor budget with the largest pools: the open-file semaphore must keep the run
-    // within RLIMIT_NOFILE (72 here) while 64-thread pools hold files open under schedule perturbation
+    // within RLIMIT_NOFILE (80 here) while 128-thread pools hold files open under schedule perturbation
     if std::path::Path::new(SHIM).exists() && std::path::Path::new("/usr/bin/prlimit").exists() {
         let mut o = c.base.clone();
-        o.threads = POOLSETS[4].iter().map(|s| s.to_string()).collect();
-        let mut a: Vec<OsString> = vec!["--nofile=72:72".into(), FCLONES_BIN.into(), "group".into()];
+        // 128-thread pools against 80 descriptors (75 permits): only the semaphore keeps the run within the limit
+        o.threads = vec!["128".to_string()];
+        let mut a: Vec<OsString> = vec!["--nofile=80:80".into(), FCLONES_BIN.into(), "group".into()];
         a.extend(o.args());
         a.extend(roots.iter().cloned());
         let mut run = Run::program(&cd, "/usr/bin/prlimit").args(&a);
@@ -235,7 +236,7 @@ pub fn run_case(c: &C13Case, n: u64) -> Verdict {
         }
         let seed = c.perms.first().copied().unwrap_or(3) as u64 + 11;
         run = run.env("LD_PRELOAD", SHIM).env("FCV_ROOT", cd.tree()).env("FCV_JITTER", seed.to_string());
-        let cmdline = format!("FCV_JITTER={} prlimit --nofile=72:72 {}", seed, run.cmdline());
+        let cmdline = format!("FCV_JITTER={} prlimit --nofile=80:80 {}", seed, run.cmdline());
         let out = run.run();
         let gr = GroupRun { report: parse_text(&out.stdout), out, cmdline };
         if let Some(v) = check_term(&gr) {
@@ -457,7 +458,7 @@ pub fn check(tier: Tier) -> i32 {
     cleanup_process_scratch();
     ctx.finish(
         "exploration",
-        "proptest-generated trees of 20-90 (quick) / 20-150 (thorough) files incl. hard links and near-duplicates x fixed selection options; metamorphic oracle: the report body (everything but the timestamp/command/version lines) is byte-identical across 2 repetitions, 5-7 thread-pool specifications (always incl. all pools of size 1 and of size 64), 2 permutations of the roots, --stdin and 3 runs under schedule perturbation (the LD_PRELOAD interposer yields or sleeps 0-1.5 ms at pseudo-randomly chosen libc calls on tree files; default, small and size-1 pools) and one run with 64-thread pools under `prlimit --nofile=72` with perturbation; the partition (set of path-sets with lengths) is identical across 3-4 tunings (hash fn, max-prefix/suffix, pinned device, cache); every run must exit; a run exceeding the 60 s watchdog is a violation only if all its threads are asleep without CPU progress. Non-trivial = >=3 groups, >=40 files and a size-1 pool among the variants. Second generator (walk order): small trees with file/directory symlinks (relative, absolute, dangling, cyclic), hidden names, nesting 0-4, scanned with overlapping and repeated roots under -L / -S / --depth / --hidden / -H and --rf-over 0 (every selected file is listed); the body must be identical for 3 permutations of the roots, their reversal, --threads 1 / main:1 / default pools and --stdin; non-trivial there = >=2 listed files, >=2 roots and -L or --depth.",
+        "proptest-generated trees of 20-90 (quick) / 20-150 (thorough) files incl. hard links and near-duplicates x fixed selection options; metamorphic oracle: the report body (everything but the timestamp/command/version lines) is byte-identical across 2 repetitions, 5-7 thread-pool specifications (always incl. all pools of size 1 and of size 64), 2 permutations of the roots, --stdin and 3 runs under schedule perturbation (the LD_PRELOAD interposer yields or sleeps 0-1.5 ms at pseudo-randomly chosen libc calls on tree files; default, small and size-1 pools) and one run with 128-thread pools under `prlimit --nofile=80` with perturbation; the partition (set of path-sets with lengths) is identical across 3-4 tunings (hash fn, max-prefix/suffix, pinned device, cache); every run must exit; a run exceeding the 60 s watchdog is a violation only if all its threads are asleep without CPU progress. Non-trivial = >=3 groups, >=40 files and a size-1 pool among the variants. Second generator (walk order): small trees with file/directory symlinks (relative, absolute, dangling, cyclic), hidden names, nesting 0-4, scanned with overlapping and repeated roots under -L / -S / --depth / --hidden / -H and --rf-over 0 (every selected file is listed); the body must be identical for 3 permutations of the roots, their reversal, --threads 1 / main:1 / default pools and --stdin; non-trivial there = >=2 listed files, >=2 roots and -L or --depth.",
         &["hangs are observed only under schedules the OS happens to produce", "no transform in this check (C01/C03 cover it)"],
     )
 }
